@@ -226,7 +226,7 @@ pub fn run(ctx: &mut Ctx) {
         "after a radio error the application simply continues (nb: retries the failed event once)".into(),
         "nothing is required after SessionExpired".into(),
     ];
-    let cases = ctx.tier.pick(4_000u32, 60_000);
+    let cases = ctx.tier.pick(8_000u32, 60_000);
     let seed = ctx.seed;
     let nthreads = ctx.threads as u32;
     let kf = ctx.kf.clone();
